@@ -23,7 +23,7 @@ STD = 'std axioms A1-A12 of DESIGN.md 2.4 (Box, cmp::max/min for a lawful Ord, V
 PROPS = {
     'C01': dict(
         title='Range satisfaction follows npm range semantics (AST level)',
-        obligations=ORDER + BOUNDS + SAT + RANGE_SPEC + ['mod:m_npm', 'fn:BoundSet::intersect', 'fn:intersect_all'] + DESUGAR + ['fn:range_set_check', 'fn:lemma_c01_alternative', 'fn:lemma_c01_range', 'fn:lemma_c01_parse_failure'],
+        obligations=ORDER + BOUNDS + SAT + RANGE_SPEC + ['mod:m_npm', 'fn:BoundSet::intersect', 'fn:intersect_all'] + DESUGAR + ['fn:range_set_check', 'fn:lemma_c01_alternative', 'fn:lemma_c01_range', 'fn:lemma_c01_parse_failure', 'fn:lemma_shape_none_is_empty', 'fn:lemma_shape_c_repr', 'fn:lemma_shape_equiv_repr'],
         assumptions=[TEXT_SHELL, STD, 'node-semver README / range.js 7.6.2 desugaring tables transcribed by hand into npm_spec.rs; `*` is `>=0.0.0` as the README states (node\'s internal `>=0.0.0 -> *` shortcut is not modelled)'],
         not_decided=['text -> (operator, Partial) tokenisation incl. leading zeros, `v` prefix, blanks after operators, garbage tokens: covered by the bounded stand-in only'],
         witness='c01',
@@ -37,7 +37,7 @@ PROPS = {
     ),
     'C03': dict(
         title='prerelease gate',
-        obligations=ORDER + BOUNDS + SAT + RANGE_SPEC + ['mod:m_npm', 'fn:BoundSet::intersect', 'fn:intersect_all'] + DESUGAR + ['fn:lemma_c03_release_unaffected', 'fn:lemma_c03_build_irrelevant', 'fn:lemma_c03_gate_needs_same_tuple', 'fn:lemma_c01_alternative'],
+        obligations=ORDER + BOUNDS + SAT + RANGE_SPEC + ['mod:m_npm', 'fn:BoundSet::intersect', 'fn:intersect_all'] + DESUGAR + ['fn:lemma_c03_release_unaffected', 'fn:lemma_c03_build_irrelevant', 'fn:lemma_c03_gate_needs_same_tuple', 'fn:lemma_c01_alternative', 'fn:lemma_shape_c_repr', 'fn:lemma_shape_equiv_repr'],
         assumptions=[TEXT_SHELL, STD],
         not_decided=['that the comparator "as written" in the text is the one whose Partial reaches the desugaring closure'],
         witness='c03',
